@@ -85,8 +85,8 @@ def gen_absreq(rng, big=False, bighdr=False):
         if canon in names or canon in (b"CONTENT_LENGTH", b"CONTENT_TYPE", b"COOKIE", b"CONNECTION"):
             continue
         names.add(canon)
-        v = rand_text(rng, rng.choice([0, 1, 5, 40])).strip(b" \t")
-        v = v.replace(b'"', b"").replace(b"(", b"").replace(b"\\", b"")
+        v = rand_text(rng, rng.choice([0, 1, 5, 40]))
+        v = v.replace(b'"', b"").replace(b"(", b"").replace(b"\\", b"").strip(b" \t")
         r.headers.append((nm, v))
     if bighdr:
         # header section close to (but within) the 16 KiB limits of all three front-ends
@@ -95,7 +95,7 @@ def gen_absreq(rng, big=False, bighdr=False):
         i = 0
         while used < budget:
             n = min(budget - used, rng.choice([200, 900, 4000]))
-            v = rand_text(rng, n).strip(b" \t").replace(b'"', b"").replace(b"(", b"").replace(b"\\", b"")
+            v = rand_text(rng, n).replace(b'"', b"").replace(b"(", b"").replace(b"\\", b"").strip(b" \t")
             nm = b"X-Big-%d" % i
             r.headers.append((nm, v)); used += len(nm) + len(v) + 12; i += 1
         r.get = r.get[:1]; r.path = r.path[:8]
